@@ -28,6 +28,50 @@ Qed.
 Lemma last_end_app es l x : last_end (es ++ l ++ [x]) = snd x.
 Proof. unfold last_end. rewrite app_assoc, last_last. reflexivity. Qed.
 
+(* the keys of a history stay distinct *)
+Definition huniq (h : hist) : Prop := NoDup (map fst h).
+
+Lemma hist_append_keys c e h :
+  map fst (hist_append c e h) = if existsb (N.eqb c) (map fst h) then map fst h else map fst h ++ [c].
+Proof.
+  induction h as [|[k es] r IH]; cbn [hist_append map fst existsb]; [reflexivity |].
+  rewrite (N.eqb_sym c k). destruct (k =? c) eqn:E; cbn [map fst orb]; [reflexivity |].
+  rewrite IH. destruct (existsb (N.eqb c) (map fst r)); reflexivity.
+Qed.
+
+Lemma huniq_append c e h : huniq h -> huniq (hist_append c e h).
+Proof.
+  unfold huniq. rewrite hist_append_keys. destruct (existsb (N.eqb c) (map fst h)) eqn:E; auto.
+  intros H. apply nodup_app; auto; [constructor; [intros [] | constructor] |].
+  intros x Hx Hc. destruct Hc as [Hc|[]]. subst x.
+  assert (existsb (N.eqb c) (map fst h) = true) by (apply existsb_exists; exists c; split; auto; apply N.eqb_refl). congruence.
+Qed.
+
+Lemma huniq_record_lost inval lost new_ : forall h, huniq h -> huniq (record_lost inval lost new_ h).
+Proof.
+  unfold record_lost; induction lost as [|[k s] r IH]; intros h H; cbn [fold_left]; auto.
+  apply IH. destruct (tmem k new_); auto using huniq_append.
+Qed.
+
+Lemma huniq_calc_history inval lost new_ h : huniq h -> huniq (calc_history inval lost new_ h).
+Proof.
+  intros H. unfold calc_history, huniq. rewrite map_map.
+  replace (map (fun x : N * list period => fst (let '(c, es) := x in (c, compact_one (max_entries (length (record_lost inval lost new_ h))) es)))
+               (record_lost inval lost new_ h)) with (map fst (record_lost inval lost new_ h)).
+  - apply huniq_record_lost; exact H.
+  - apply map_ext. intros [c es]; reflexivity.
+Qed.
+
+Lemma huniq_in_hget h c es : huniq h -> In (c, es) h -> hget c h = es.
+Proof.
+  unfold huniq; induction h as [|[k v] r IH]; intros Hnd Hin; [destruct Hin |].
+  cbn [map fst] in Hnd. inversion Hnd as [|? ? Hnotin Hnd']; subst. cbn [hget].
+  destruct Hin as [Heq|Hin].
+  - inversion Heq; subst. rewrite N.eqb_refl; reflexivity.
+  - destruct (k =? c) eqn:E; [| apply IH; auto].
+    apply N.eqb_eq in E; subst k. exfalso; apply Hnotin. apply (in_map fst) in Hin; exact Hin.
+Qed.
+
 (* ---------- a well-formed principal, relative to the clock n (the next sequence) ---------- *)
 Definition set_ok (n : N) (t : tset) : Prop :=
   (forall c s, In (c, s) t -> 0 < s < n) /\ uniq t /\ tmem star t = false.
@@ -37,14 +81,15 @@ Record pwf (n : N) (p : princ) : Prop := {
   pw_inval : p_inval p < n;
   pw_ends : forall c e, In e (hget c (p_hist p)) -> 0 < snd e < n;
   pw_pending : p_inval p <> 0 -> forall c e, In e (hget c (p_hist p)) -> snd e <= p_inval p;
-  pw_last : last_max (p_hist p) }.
+  pw_last : last_max (p_hist p);
+  pw_huniq : huniq (p_hist p) }.
 
 Lemma set_ok_mono n n' t : n <= n' -> set_ok n t -> set_ok n' t.
 Proof. intros Hle (H1 & H2 & H3); repeat split; auto; specialize (H1 c s H); lia. Qed.
 
 Lemma pwf_mono n n' p : n <= n' -> pwf n p -> pwf n' p.
 Proof.
-  intros Hle [H1 H2 H3 H4 H5]. constructor; auto.
+  intros Hle [H1 H2 H3 H4 H5 H6]. constructor; auto.
   - eapply set_ok_mono; eauto.
   - lia.
   - intros c e He. specialize (H3 c e He). lia.
@@ -53,7 +98,7 @@ Qed.
 Lemma pwf_invalidate n s p : pwf n p -> n <= s + 1 -> pwf (s + 1) (invalidate s p).
 Proof.
   intros Hp Hs. unfold invalidate. destruct (p_inval p =? 0) eqn:E; [| apply (pwf_mono n); [lia | exact Hp]].
-  destruct Hp as [H1 H2 H3 H4 H5]. constructor; cbn [p_set p_inval p_hist]; auto.
+  destruct Hp as [H1 H2 H3 H4 H5 H6]. constructor; cbn [p_set p_inval p_hist]; auto.
   - eapply set_ok_mono; [| exact H1]. lia.
   - lia.
   - intros c e He. specialize (H3 c e He). lia.
@@ -74,7 +119,7 @@ Qed.
 Lemma pwf_rebuild n new_ p : pwf n p -> set_ok n new_ -> unpruned_princ new_ p -> pwf n (rebuild new_ p).
 Proof.
   intros Hp Hn Hun. unfold rebuild. destruct (p_inval p =? 0) eqn:E; auto.
-  apply N.eqb_neq in E. destruct Hp as [H1 H2 H3 H4 H5]. constructor; cbn [p_set p_inval p_hist].
+  apply N.eqb_neq in E. destruct Hp as [H1 H2 H3 H4 H5 H6]. constructor; cbn [p_set p_inval p_hist].
   - exact Hn.
   - lia.
   - rewrite (Hun E). intros c e He. destruct (record_lost_shape (p_inval p) (p_set p) new_ (p_hist p) c) as (l & Hl & Hall).
@@ -82,6 +127,7 @@ Proof.
     destruct (Hall e He) as [-> _]. lia.
   - congruence.
   - rewrite (Hun E). apply last_max_record_lost; [exact H5 | apply H4; exact E].
+  - apply huniq_calc_history; exact H6.
 Qed.
 
 Lemma pwf_delete n s p :
@@ -89,7 +135,7 @@ Lemma pwf_delete n s p :
   calc_history s (p_set p) [] (p_hist p) = record_lost s (p_set p) [] (p_hist p) ->
   pwf (s + 1) (mkPrinc (p_set p) s (calc_history s (p_set p) [] (p_hist p))).
 Proof.
-  intros [H1 H2 H3 H4 H5] Hs Hs0 Hv Hun. rewrite Hun. constructor; cbn [p_set p_inval p_hist].
+  intros [H1 H2 H3 H4 H5 H6] Hs Hs0 Hv Hun. rewrite Hun. constructor; cbn [p_set p_inval p_hist].
   - eapply set_ok_mono; [| exact H1]. lia.
   - lia.
   - intros c e He. destruct (record_lost_shape s (p_set p) [] (p_hist p) c) as (l & Hl & Hall).
@@ -99,11 +145,12 @@ Proof.
     rewrite Hl in He. apply in_app_or in He as [He|He]; [specialize (H3 c e He); lia |].
     destruct (Hall e He) as [-> _]. lia.
   - apply last_max_record_lost; auto. intros c e He. specialize (H3 c e He). lia.
+  - apply huniq_record_lost; exact H6.
 Qed.
 
 Lemma pwf_create n new_ p : pwf n p -> set_ok n new_ -> pwf n (mkPrinc new_ 0 (p_hist p)).
 Proof.
-  intros [H1 H2 H3 H4 H5] Hn. constructor; cbn [p_set p_inval p_hist]; auto; [lia | congruence].
+  intros [H1 H2 H3 H4 H5 H6] Hn. constructor; cbn [p_set p_inval p_hist]; auto; [lia | congruence].
 Qed.
 
 Lemma pwf_fresh n new_ : 0 < n -> set_ok n new_ -> pwf n (mkPrinc new_ 0 []).
@@ -112,6 +159,7 @@ Proof.
   - intros c e [].
   - congruence.
   - intros c e [].
+  - constructor.
 Qed.
 
 (* ---------- the whole grant state ---------- *)
